@@ -157,6 +157,8 @@ class Tr:
 
 
 def _find_function(tree, qual):
+    if qual == '<module>':
+        return tree
     parts = qual.split('.')
     scope = tree.body
     node = None
@@ -523,6 +525,13 @@ SPEC = [
     ('adv_rows', 'loader.py', 'SgzLoader3d._distribute_chunk_into_buffer', ('callarg', 'range', 0, 0), 'Nat'),
     ('adv_buf_start', 'loader.py', 'SgzLoader3d._distribute_chunk_into_buffer', ('assign', 'buf_start', 0), 'Nat'),
     ('adv_src_lo', 'loader.py', 'SgzLoader3d._distribute_chunk_into_buffer', ('subscript', 'temp_buf', 0, 0, 'lower'), 'Nat'),
+    # sgzconstants.py
+    ('const_disk_block', 'sgzconstants.py', '<module>', ('assign', 'DISK_BLOCK_BYTES', 0), 'Nat'),
+    ('const_segy_file_header', 'sgzconstants.py', '<module>', ('assign', 'SEGY_FILE_HEADER_BYTES', 0), 'Nat'),
+    ('const_segy_text_header', 'sgzconstants.py', '<module>', ('assign', 'SEGY_TEXT_HEADER_BYTES', 0), 'Nat'),
+    ('const_segy_trace_header', 'sgzconstants.py', '<module>', ('assign', 'SEGY_TRACE_HEADER_BYTES', 0), 'Nat'),
+    ('segyraw_seek', 'conversion_utils.py', 'MinimalInlineReader.read_line', ('callarg', 'seek', 0, 0), 'Nat'),
+    ('segyraw_length', 'conversion_utils.py', 'MinimalInlineReader.read_line', ('callarg', 'read', 0, 0), 'Nat'),
     # loader.py, 2D
     ('trace_range_offset', 'loader.py', 'SgzLoader2d.read_and_decompress_trace_range', ('assign', 'block_offset', 0), 'Nat'),
     ('trace_range_length', 'loader.py', 'SgzLoader2d.read_and_decompress_trace_range', ('callarg', '_get_compressed_bytes', 0, 1), 'Nat'),
